@@ -22,6 +22,10 @@ pub enum ClockCase {
         order: u8,
         #[serde(default)]
         omit: u8,
+        /// 0 nothing; otherwise a `movestogo` field (moves to the next time control, sent by GUIs in "x moves in y
+        /// minutes" games): bit0/1 choose the place (end / front / after the first field), the rest the number
+        #[serde(default)]
+        movestogo: u8,
     },
     MoveTime { movetime: u64, black: bool },
     /// a fixed move time together with the clock fields (some GUIs send both): the fixed time governs.
@@ -50,7 +54,7 @@ fn inc_value() -> impl Strategy<Value = u64> {
 impl C13 {
     fn run(&self, case: &ClockCase, ev: &mut Ev) -> Result<(), Fail> {
         let (cmd, limit, black, nontrivial) = match case {
-            ClockCase::Clock { wtime, btime, winc, binc, black, order, omit } => {
+            ClockCase::Clock { wtime, btime, winc, binc, black, order, omit, movestogo } => {
                 let parts = [format!("wtime {}", wtime), format!("btime {}", btime), format!("winc {}", winc), format!("binc {}", binc)];
                 // the four fields in one of a few orders GUIs use
                 let idx: [usize; 4] = match order % 4 {
@@ -66,6 +70,15 @@ impl C13 {
                         ev.class("zero_increment_field_left_out");
                     } else {
                         fields.push(&parts[i]);
+                    }
+                }
+                let mtg = format!("movestogo {}", [1u32, 2, 5, 10, 25, 40, 80][(*movestogo as usize / 4) % 7]);
+                if *movestogo != 0 {
+                    ev.class("clock_with_movestogo");
+                    match movestogo % 4 {
+                        1 => fields.push(&mtg),
+                        2 => fields.insert(0, &mtg),
+                        _ => fields.insert(1.min(fields.len()), &mtg),
                     }
                 }
                 let cmd = format!("go {}", fields.join(" "));
@@ -169,7 +182,7 @@ impl Prop for C13 {
     }
 
     fn rule(&self) -> String {
-        "Cases: `go wtime W btime B winc X binc Y` (four field orders; one time in three an increment field whose value is 0 is left out, as GUIs that send increments only when there are any do) with W, B log-uniform over 0..10^7 plus boundary values around 150/155 ms and the 7.5 s clock, increments 0 / small / clock-like / up to 10^5, either side to move; `go movetime T`, T in 0..2000 with boundary values; and (one case in five) a fixed move time together with the four clock fields, in any of five places among them and optionally with `movestogo` / `depth` fields, T kept at or below the mover's clock so that the limit is T under either reading of the statement. Through the real binary: the `info time N` line must exist and N must not exceed the mover's remaining time (resp. T), hence be finite and non-negative; allotments up to 400 ms are run to completion and `bestmove` must arrive (later than N + 5 s = violation, between 2 and 5 s = inconclusive); for longer ones only the allotted figure is judged (isready / stop / quit behaviour belongs to C14). evaluations = go commands judged. Non-trivial: 2 % of the clock plus increment below 155 ms, or increment above the clock, or movetime below 5; distinct by command and side.".into()
+        "Cases: `go wtime W btime B winc X binc Y` (four field orders; one time in three an increment field whose value is 0 is left out, as GUIs that send increments only when there are any do; one time in three with a `movestogo N` field, N from 1 to 80, at the end, the front or after the first field) with W, B log-uniform over 0..10^7 plus boundary values around 150/155 ms and the 7.5 s clock, increments 0 / small / clock-like / up to 10^5, either side to move; `go movetime T`, T in 0..2000 with boundary values; and (one case in five) a fixed move time together with the four clock fields, in any of five places among them and optionally with `movestogo` / `depth` fields, T kept at or below the mover's clock so that the limit is T under either reading of the statement. Through the real binary: the `info time N` line must exist and N must not exceed the mover's remaining time (resp. T), hence be finite and non-negative; allotments up to 400 ms are run to completion and `bestmove` must arrive (later than N + 5 s = violation, between 2 and 5 s = inconclusive); for longer ones only the allotted figure is judged (isready / stop / quit behaviour belongs to C14). evaluations = go commands judged. Non-trivial: 2 % of the clock plus increment below 155 ms, or increment above the clock, or movetime below 5; distinct by command and side.".into()
     }
 
     fn assumptions(&self) -> Vec<String> {
@@ -197,7 +210,7 @@ impl Prop for C13 {
 
     fn strategy(&self, _ctx: &Ctx) -> BoxedStrategy<ClockCase> {
         prop_oneof![
-            3 => (clock_value(), clock_value(), inc_value(), inc_value(), any::<bool>(), 0u8..4, prop_oneof![2 => Just(0u8), 1 => 1u8..4]).prop_map(|(wtime, btime, winc, binc, black, order, omit)| ClockCase::Clock { wtime, btime, winc, binc, black, order, omit }),
+            3 => (clock_value(), clock_value(), inc_value(), inc_value(), any::<bool>(), 0u8..4, prop_oneof![2 => Just(0u8), 1 => 1u8..4], prop_oneof![2 => Just(0u8), 1 => 1u8..28]).prop_map(|(wtime, btime, winc, binc, black, order, omit, movestogo)| ClockCase::Clock { wtime, btime, winc, binc, black, order, omit, movestogo }),
             1 => (prop_oneof![2 => prop::sample::select(vec![0u64, 1, 4, 5, 6, 10, 50, 200]), 1 => 0u64..2000], any::<bool>()).prop_map(|(movetime, black)| ClockCase::MoveTime { movetime, black }),
             1 => (clock_value(), clock_value(), inc_value(), inc_value(), prop_oneof![1 => prop::sample::select(vec![0u64, 1, 5, 6, 50, 200]), 1 => 0u64..3000], any::<bool>(), 0u8..5, 0u8..4)
                 .prop_map(|(wtime, btime, winc, binc, movetime, black, place, extra)| ClockCase::Both { wtime, btime, winc, binc, movetime, black, place, extra }),
